@@ -47,3 +47,27 @@ func debugConstIdx(l *Loaded) {
 	}
 	fmt.Println("total", n)
 }
+
+func debugDiv(l *Loaded) {
+	n := 0
+	for _, fn := range l.AllFuncs() {
+		if fn.Pkg == nil || !isModulePkg(fn.Pkg.Pkg) {
+			continue
+		}
+		eachInstr(fn, func(in ssa.Instruction) {
+			b, ok := in.(*ssa.BinOp)
+			if !ok || (b.Op.String() != "/" && b.Op.String() != "%") {
+				return
+			}
+			if _, isc := b.Y.(*ssa.Const); isc {
+				return
+			}
+			if bt, ok := b.Y.Type().Underlying().(*types.Basic); !ok || bt.Info()&types.IsInteger == 0 {
+				return
+			}
+			n++
+			fmt.Printf("%s %s  %s / %s\n", l.pos(b.Pos()), fn.Name(), b.X.Name(), describe(b.Y))
+		})
+	}
+	fmt.Println("total", n)
+}
